@@ -38,7 +38,8 @@ MANIFEST = {
     "are unique in the model.  CPython reuses id() of collected generators and plan_mutator's caches are keyed by id(): a "
     "stale tail_cache entry of a head killed by a thrown exception made its tail run after a later insertion -- found by "
     "this check, repaired in /repo (throw branch now pops both caches), guarded by the implementation-only probe "
-    "`stale_tail` (run on every check, sig stale-tail-of-killed-head-runs-after-later-insertion).",
+    "`stale_tail` (run on every check, sig stale-tail-of-killed-head-runs-after-later-insertion) and its sibling `stale_result` "
+    "(the saved head response of a killed tail, sig stale-head-response-of-killed-tail-given-to-later-head).",
     "technique": "Lean 4 proof (execution paths of the transcribed loop, induction over the interaction; fresh-id invariant; "
     "fuel adequacy) + exhaustive/random correspondence run against the real plan_mutator with inserting processors",
 }
@@ -323,7 +324,93 @@ def probe_stale_tail():
     return script, trace
 
 
+def probe_stale_result():
+    """Implementation-only probe, the sibling of probe_stale_tail for the OTHER id()-keyed cache: a TAIL killed by an
+    exception thrown in from outside (at the tail's own message) must have its saved head response
+    (tail_result_cache[id(tail)]) forgotten.  Otherwise a later inserted HEAD that CPython allocates at the dead tail's
+    address gets that stale response handed to the host instead of the response to its own last message.
+    m1 -> (head, tail): throw at the tail's message; m2 -> head killed by a throw (rebinds plan_mutator's `failed_gen`);
+    m2b -> a head that finishes (rebinds `gen`); m3 -> heads are allocated until one has the dead tail's id.
+    -> (conclusive, host_log, emitted)"""
+    from bluesky.preprocessors import plan_mutator
+
+    class Boom(Exception):
+        pass
+
+    def gen(cmds):  # one generator function for every inserted plan: same object size, so a freed id is handed out again
+        for c in cmds:
+            yield G.Msg(c)
+
+    for _attempt in range(5):
+        state = {"dead": None, "reused": False, "keep": []}
+        host_log = []
+
+        def host():
+            for m in ("m1", "m2"):
+                try:
+                    r = yield G.Msg(m)
+                    host_log.append([m, r])
+                except Boom:
+                    host_log.append(["caught", m])
+            for m in ("m2b", "m3"):
+                r = yield G.Msg(m)
+                host_log.append([m, r])
+
+        def proc(msg):
+            if msg.command == "m1":
+                tail = gen(["boom1"])
+                state["dead"] = id(tail)  # an int: no reference is kept
+                return gen(["h1"]), tail
+            if msg.command == "m2":
+                return gen(["boom2"]), None
+            if msg.command == "m2b":
+                return gen(["x"]), None
+            if msg.command == "m3":
+                cand = None
+                for _ in range(5000):
+                    cand = gen(["q"])
+                    if id(cand) == state["dead"]:
+                        state["reused"] = True
+                        return cand, None
+                    state["keep"].append(cand)
+                return cand, None
+            return None, None
+
+        emitted = []
+        plan = plan_mutator(host(), proc)
+        try:
+            msg = plan.send(None)
+            while len(emitted) < 50:
+                emitted.append(msg.command)
+                msg = plan.throw(Boom(msg.command)) if msg.command.startswith("boom") else plan.send("resp:" + msg.command)
+        except StopIteration:
+            pass
+        except Boom:
+            host_log.append(["escaped", "Boom"])
+        if state["reused"] or host_log != STALE_RESULT_EXPECTED:
+            return state["reused"], host_log, emitted
+    return False, host_log, emitted
+
+
+STALE_RESULT_EXPECTED = [["caught", "m1"], ["caught", "m2"], ["m2b", "resp:x"], ["m3", "resp:q"]]
+
+
+def judge_probe_result(res):
+    conclusive, host_log, emitted = probe_stale_result()
+    res.count("probe:stale-result" + ("" if conclusive else ":id-not-reused(inconclusive)"))
+    if host_log != STALE_RESULT_EXPECTED:
+        res.violations.append(
+            C.Violation(
+                "stale-head-response-of-killed-tail-given-to-later-head",
+                f"the host must receive the response to the inserted head's LAST message: expected {STALE_RESULT_EXPECTED}, got {host_log} "
+                f"(emitted {emitted}) -- the saved head response of a tail killed by a thrown exception was found again under a reused id()",
+                {"probe": "stale_result", "host_log": host_log, "emitted": emitted},
+            )
+        )
+
+
 def judge_probe(res):
+    judge_probe_result(res)
     script, trace = probe_stale_tail()
     ylds = [o[1] for o in trace if o[0] == "yld"]
     res.count("probe:stale-tail")
@@ -484,7 +571,7 @@ def replay(ctx, data):
     G.quiet_unraisable()
     res = C.Result()
     case = dict(data["case"])
-    if case.get("probe") == "stale_tail":
+    if case.get("probe") in ("stale_tail", "stale_result"):
         judge_probe(res)
         return res
     if "host" not in case:
